@@ -57,7 +57,7 @@ def analyse(src):
     return tree, sc
 
 
-def namings_src(src, pool, limit=None):
+def namings_src(src, pool, limit=None, allow_free_spelling=False):
     """Yield the source under every admissible naming (including ones equal to the input)."""
     tree, sc = analyse(src)
     nb = len(sc.binders)
@@ -65,8 +65,8 @@ def namings_src(src, pool, limit=None):
     orig = [a.arg for a in sc.binders]
     count = 0
     for names in itertools.product(pool, repeat=nb):
-        if any(n in free for n in names):
-            continue
+        if not allow_free_spelling and any(n in free for n in names):
+            continue  # (with allow_free_spelling a binder may be spelled like a free name that is not used below it)
         ok = True
         # parameters of one lambda must differ
         for ids in sc.groups:
